@@ -41,7 +41,7 @@ REQUIRED_PROBES = {"quick": ["R_is_infinity", "model_accepts_tampered",
 
 KINDS = ["intact", "intact", "bytes", "bytes", "bytes", "arith", "arith",
          "other_msg", "other_key", "other_hash", "replay", "byz_inf",
-         "byz_pair", "byz_pair", "inplace"]
+         "byz_pair", "byz_pair", "inplace", "lowlevel"]
 
 
 def budget(tier):
@@ -179,6 +179,10 @@ def execute(prog):
             kind = it["kind"]
             fmt = it["fmt"]
             rnd = random.Random(it["fseed"])
+            if kind == "lowlevel":
+                _lowlevel(it, rnd, mc, curve, toy, d, d2, Q, Q2, sk, sk2,
+                          vk_rx, out, log, rlog, fail)
+                continue
             hf = libx.hash_by_name(it["hash"])
             allow = it["allow_truncate"]
             if it["use_digest"]:
@@ -434,6 +438,88 @@ def execute(prog):
     out["digest"] = core.digest_of(log)
     out["rdigest"] = core.digest_of(rlog)
     return out
+
+
+def _lowlevel(it, rnd, mc, curve, toy, d, d2, Q, Q2, sk, sk2, vk_rx, out,
+              log, rlog, fail):
+    """The rule itself, `ecdsa.ecdsa.Public_key.verifies(e, Signature)`, driven
+    directly: one `Signature` *object* is checked several times - under a key
+    on another curve, under another key of this curve, with another digest,
+    and under the right key - and every answer must be the boolean the model
+    gives for that (key, e, r, s).  The signature object is a value: what it
+    was checked against before must not matter."""
+    from ecdsa import ecdsa as lecd, keys as lk
+    n = mc.n
+    if toy:
+        others = [c for c in mcurves.toy() if c.h == 1 and c.n != n]
+    else:
+        others = [c for c in mcurves.named()
+                  if c.n != n and c.p < (1 << 200)]
+    mo = others[it["fseed"] % len(others)]
+    co, _t = libx.run_curve(mo)
+    do = d % mo.n or 1
+    Qo = ec.mul(mo, do, mo.G)
+    sko = lk.SigningKey.from_secret_exponent(do, co)
+    e = rnd.choice([rnd.getrandbits(n.bit_length()), rnd.randrange(n),
+                    rnd.getrandbits(n.bit_length() + 9), 0, n, 1])
+    rs = ec.ecdsa_sign(mc, d, e, it["k"])
+    mode = rnd.choice(["valid", "valid", "valid", "n-s", "s+1", "r+1",
+                       "pair", "small"])
+    if rs is None or mode == "pair":
+        rs = (rnd.randrange(0, n + 2), rnd.randrange(0, n + 2))
+    elif mode == "n-s":
+        rs = (rs[0], n - rs[1])
+    elif mode == "s+1":
+        rs = (rs[0], rs[1] + 1)
+    elif mode == "r+1":
+        rs = (rs[0] + 1, rs[1])
+    elif mode == "small":
+        # a pair that is in range for both curves
+        m_ = min(n, mo.n)
+        rs = (rs[0] % m_ or 1, rs[1] % m_ or 1)
+    r_, s_ = rs
+    sig = lecd.Signature(r_, s_)
+    stations = {
+        "other_curve": (mo, Qo, sko.verifying_key.pubkey, e),
+        "other_key": (mc, Q2, sk2.verifying_key.pubkey, e),
+        "other_digest": (mc, Q, sk.verifying_key.pubkey, e + 1),
+        "right": (mc, Q, sk.verifying_key.pubkey, e),
+        "right_rx": (mc, Q, vk_rx.pubkey, e),
+    }
+    route = [rnd.choice(["other_curve", "other_curve", "other_key",
+                         "other_digest", "right"])
+             for _ in range(rnd.randrange(0, 3))] + \
+        [rnd.choice(["right", "right", "right_rx", "other_key"])]
+    if rnd.random() < 0.3:
+        route.append(rnd.choice(sorted(stations)))
+    core.bump(out["faults"], "lowlevel_signature_object_reused")
+    out["nontrivial"] = True
+    for st in route:
+        mcx, Qx, pub, ex = stations[st]
+        want, rclass = _verify_detail(mcx, Qx, ex, r_, s_)
+        if rclass:
+            core.bump(out["probes"], rclass)
+        try:
+            got = pub.verifies(ex, sig)
+        except Exception as ex_:
+            fail("exception", "lowlevel-%s" % type(ex_).__name__,
+                 "Public_key.verifies raised %s(%s) for (r, s)=%r, e=%d at "
+                 "station %s of route %r" % (type(ex_).__name__, ex_, rs, ex,
+                                             st, route))
+        log.append(("ll", st, r_, s_, ex))
+        rlog.append(("ll", st, repr(got)))
+        if got is not True and got is not False:
+            fail("falsy", "lowlevel", "Public_key.verifies returned %r, not "
+                 "a boolean" % (got,))
+        if got != want:
+            fail("rejects-valid" if want else "accepts-invalid", "lowlevel",
+                 "Public_key.verifies(e=%d, Signature(r=%d, s=%d)) under "
+                 "Q=%r on %s returned %r, the ECDSA rule says %r (station %s "
+                 "of route %r on one Signature object)" % (
+                     ex, r_, s_, Qx, mcx.name, got, want, st, route))
+        if (int(sig.r), int(sig.s)) != (r_, s_):
+            fail("argument-changed", "lowlevel", "the Signature object "
+                 "changed from %r to %r" % (rs, (sig.r, sig.s)))
 
 
 def _verify_detail(mc, Q, e, r_, s_):
